@@ -206,6 +206,10 @@ pub fn ops_of(alphabet: &Alphabet, hist: &[u16]) -> Vec<Op> {
 }
 
 pub trait E1Oracle {
+    /// read-only calls made on the graph BEFORE the next mutation is applied to the same object, so
+    /// that a query -> mutate -> query history is part of every explored transition (anything a
+    /// query leaves behind in the graph - a memo, a lazily built index - must survive the mutation)
+    fn warmup(&mut self, _g: &G, _alphabet: &Alphabet) {}
     fn transition(&mut self, _t: &Trans, _rec: &Recorder, _c: &mut Counters) {}
     fn state(&mut self, _s: &StateCtx, _rec: &Recorder, _c: &mut Counters) {}
 }
@@ -332,6 +336,7 @@ pub fn explore<O: E1Oracle, F: Fn() -> O + Sync>(p: &E1Params, rec: &Recorder, m
                 for oi in 0..nops {
                     let op = &alphabet_ref.ops[oi];
                     let (mut g, _) = build_real(&s.specs, &ops_h);
+                    let _ = guarded(|| o.warmup(&g, alphabet_ref));
                     let res = guarded(|| op.apply_real(&mut g));
                     trans += 1;
                     let real_res = match res {
